@@ -7,9 +7,13 @@ namespace vh {
 // slice kinds: i = run-time index, r = std::pair<I,I>, t = std::tuple<I,I>, f = full_extent,
 //              s = strided_slice<I,I,I>, I = integral_constant index 1, R = tuple<IC<1>,IC<3>>,
 //              S = strided_slice<I, IC<4>, IC<2>> (run-time offset), Q = strided_slice<I, IC<5>, IC<2>>
+struct SEN {}; struct SCL {};      // E = unscoped enum index, C = class-type index (convertible to index_type)
+enum AxisIdx : int { AxisZero = 0 };
 struct SI {}; struct SR {}; struct ST {}; struct SF {}; struct SS {}; struct SCI {}; struct SCR {}; struct SCS {}; struct SCQ {}; struct SCU {}; struct SCZ {};
 template <class I> using icI = std::integral_constant<I, 1>;
 template <class I> auto mkSlice(SI, const std::vector<long long>& a, size_t& p) { return static_cast<I>(a[p++]); }
+template <class I> auto mkSlice(SEN, const std::vector<long long>& a, size_t& p) { return static_cast<AxisIdx>(a[p++]); }
+template <class I> auto mkSlice(SCL, const std::vector<long long>& a, size_t& p) { return IdxLike<I>{static_cast<I>(a[p++])}; }
 template <class I> auto mkSlice(SR, const std::vector<long long>& a, size_t& p) { I b = static_cast<I>(a[p++]); I e = static_cast<I>(a[p++]); return std::pair<I, I>{b, e}; }
 template <class I> auto mkSlice(ST, const std::vector<long long>& a, size_t& p) { I b = static_cast<I>(a[p++]); I e = static_cast<I>(a[p++]); return std::tuple<I, I>{b, e}; }
 template <class I> auto mkSlice(SF, const std::vector<long long>&, size_t&) { return md::full_extent; }
